@@ -71,7 +71,12 @@ impl Swarm {
             strings: *rng.pick(&[StrRegime::Ascii, StrRegime::Multi, StrRegime::Awkward]),
             values: *rng.pick(&[ValRegime::Uniform, ValRegime::Extremes]),
             hidden_16: *rng.pick(&[0u8, 0, 1, 2, 8]),
-            max_avps: *rng.pick(&[0usize, 1, 2, 3, 4, 6, 10, 24]),
+            max_avps: if rng.chance(1, 200) {
+                // more records than any fixed-size table or counter expects
+                *rng.pick(&[255usize, 256, 257, 300, 600])
+            } else {
+                *rng.pick(&[0usize, 1, 2, 3, 4, 6, 10, 24])
+            },
         }
     }
     pub fn full() -> Swarm {
@@ -305,10 +310,24 @@ pub fn encoded_len(a: &SpecAvp) -> usize {
 /// A control message in the encodable domain (first AVP, if any, is a
 /// Message Type; total at most `limit` octets).
 pub fn gen_control(rng: &mut Rng, sw: &Swarm, limit: usize) -> SpecMessage {
+    let many = sw.max_avps > 100;
     let n = if sw.max_avps == 0 {
         0
+    } else if many {
+        sw.max_avps
     } else {
         rng.urange(0, sw.max_avps)
+    };
+    let tiny;
+    let sw = if many {
+        // keep each record small so that hundreds fit
+        let mut t = sw.clone();
+        t.size = SizeRegime::Tiny;
+        t.hidden_16 = 0;
+        tiny = t;
+        &tiny
+    } else {
+        sw
     };
     let mut avps = Vec::with_capacity(n);
     let mut total = 12;
@@ -325,8 +344,18 @@ pub fn gen_control(rng: &mut Rng, sw: &Swarm, limit: usize) -> SpecMessage {
         total += l;
         avps.push(a);
     }
+    // the `length` member is ignored by the encoder: stale values of every
+    // kind, biased to the ones a shortcut would compare against
+    let length = match rng.below(10) {
+        0..=3 => 0,
+        4 => 12,
+        5 => total as u16,
+        6 => (total as u16).wrapping_add(*rng.pick(&[1u16, 0xFFFF, 6, 12])),
+        7 => rng.extreme(16) as u16,
+        _ => rng.u16(),
+    };
     SpecMessage::Control {
-        length: if rng.bool() { 0 } else { rng.u16() },
+        length,
         tunnel_id: num(rng, 16, sw.values) as u16,
         session_id: num(rng, 16, sw.values) as u16,
         ns: num(rng, 16, sw.values) as u16,
@@ -741,4 +770,15 @@ fn shrink_msg_raw(m: &SpecMessage) -> Vec<SpecMessage> {
         }
     }
     out
+}
+
+/// Shared-secret lengths: empty, short, around the MD5 block sizes, and the
+/// long ones that cross fixed-size scratch buffers.
+pub fn secret_len(rng: &mut Rng) -> usize {
+    match rng.below(8) {
+        0..=4 => *rng.pick(&[0usize, 1, 5, 8, 15, 16, 17, 33, 55, 56, 64]),
+        5 => *rng.pick(&[119usize, 120, 127, 128, 239, 240, 241, 245, 250, 251, 255, 256, 257]),
+        6 => rng.urange(0, 300),
+        _ => *rng.pick(&[300usize, 511, 512, 1000, 4096]),
+    }
 }
